@@ -1,6 +1,5 @@
 SPECIFICATION Spec
 CONSTANTS
- FFs <- MCFFs
  Inputs <- MCInputs
  Dev <- NoDev
 INVARIANT Dom_Inv
